@@ -16,9 +16,9 @@ SPEC_MC = "vm/VmMeta_MC.tla"
 BIN = "vh_vmmeta"
 DOM = "vmmeta"
 
-PROPERTIES_WIP = ["C05"]
+PROPERTIES = ["C05"]
 
-MANIFEST_WIP = {
+MANIFEST = {
     "C05": dict(category="model_checking",
                 technique="TLA+ specification of GTF / GM with the selector tables as data over the wire-format specification "
                           "(TxFormat: Enc, OffsetOf); TLC model-checks the decision table on model transactions of every kind "
@@ -39,12 +39,15 @@ MANIFEST_WIP = {
                      "whole register file equals an outcome the specification admits (exact value; or address = tx_offset + "
                      "OffsetOf(field) with memory there equal to the field's canonical bytes; or the specified panic), memory and "
                      "stack extent are unchanged and the gas charge is the schedule's gtf / gm entry.",
-                note="Where the instruction-set text leaves a choice the specification admits both outcomes: deprecated Script*/Create* "
-                     "aliases of fields every kind has on other kinds (answer or InvalidMetadataIdentifier); fields a variant leaves "
+                note="Where the instruction-set text leaves a choice the specification admits every outcome: deprecated Script*/Create* "
+                     "aliases of fields every kind has, on other kinds (answer or InvalidMetadataIdentifier); fields a variant leaves "
                      "absent on the wire, Change.amount and Variable outputs under the coin selectors (wire value or not-found panic); "
-                     "order of ReservedRegisterNotWritable vs selector panics; charge before a non-gas panic; $cgas/$ggas read "
-                     "before or after the charge. Trusted base: harness logs snapshots; BigNat/SHA-256 Java overrides; b-txfmt's "
-                     "Canonical/TxFormat modules (checked against fuel-tx by C01/C04).",
+                     "WHICH reason a failing query reports for an index outside the list (the list's not-found reason or "
+                     "InvalidMetadataIdentifier; OutputContractInputIndex also InputNotFound); order of ReservedRegisterNotWritable vs "
+                     "selector panics; charge before a non-gas panic; $cgas/$ggas read before or after the charge. Value-vs-panic "
+                     "deviations are strict (see known_findings.json: $rB >= 2^32 refused by index-free selectors, ScriptGasLimit on "
+                     "non-script kinds, InputContractOutputIndex). Trusted base: harness logs snapshots; BigNat/SHA-256 Java overrides; "
+                     "b-txfmt's Canonical/TxFormat modules (bound to fuel-tx by C01/C04).",
                 design_ref="4/C05"),
 }
 
